@@ -7,6 +7,10 @@ LEVEL = "exploration"
 
 def run(ctx):
     stacks = zoo.select(ctx.seed + 2000, ctx.tier, limit=1500 if ctx.thorough else 130)
+    import random
+    xr = random.Random(ctx.seed * 31 + 6)
+    for st in stacks[::2]:
+        st.make_exotic(xr)   # every second stack: configuration values that a detour through another precision would change
     sh = zoorun.make_shards(ctx, stacks, "zio::drive_c06<{Z}>();", "c06", flavour="asan-dbg", extra_include="zoo_io.hpp")
     sh += zoorun.make_shards(ctx, stacks[:len(stacks) if ctx.thorough else 48], "zio::drive_c06<{Z}>();", "c06", flavour="asan-rel",
                              extra_include="zoo_io.hpp", primary=False)
@@ -31,7 +35,7 @@ def run(ctx):
     return ctx.finish(
         rule=("every generated stack (gen/zoo.py, seed offset 2000: array, constant, identity, strided, morton, hilbert, clamp, backup, affine, "
               "shuffle, cast, dereference and both interpolators in pairwise-adjacent combinations; thorough: all kind sequences to depth 4 + "
-              "sampled depth 5) with random extents and configuration values (negative box bounds, singular matrices included); array storage "
+              "sampled depth 5) with random extents and configuration values (negative box bounds, singular matrices; for every second stack also non-dyadic, float-subnormal, huge and negative-zero members); array storage "
               "filled with bit patterns drawn from {+-0, subnormals, +-inf, quiet and signalling NaNs with random payloads, random bits} via "
               "memcpy.  dump -> load -> compare every layer's configuration with the values passed in, every stored scalar BITWISE through the "
               "get_backend() chain, second dump byte-identical, stream consumed exactly; every dump is also parsed by the independent Python "
